@@ -1,6 +1,7 @@
 import GeoVerif.Driver.Concat
 import GeoVerif.Driver.Geom
 import GeoVerif.Driver.Merge
+import GeoVerif.Driver.Box
 open Lean GeoVerif.Driver
 
 structure DSt where
@@ -15,6 +16,7 @@ def stepLine (st : DSt) (line : String) : DSt × String :=
     | "concat" => let (s, o) := ConcatD.handle st.concat j; ({ st with concat := s }, o.compress)
     | "geom" => let (s, o) := GeomD.handle st.geom j; ({ st with geom := s }, o.compress)
     | "merge" => (st, (MergeD.handle j).compress)
+    | "box" => (st, (BoxD.handle j).compress)
     | _ => (st, "\"bad-model\"")
 
 partial def loop (h : IO.FS.Stream) (out : IO.FS.Stream) (st : DSt) : IO Unit := do
